@@ -202,8 +202,10 @@ TRUSTED = ['modelled rather than verified: Descriptor.h/.cpp size functions, Des
            'props/C14/exporter.cpp + c14_desc.h print the descriptors the real loader built as Gallina terms '
            '(coq/PidDescs.v, regenerated every run); the harness prints the descriptor it used (key d) and the '
            'model prints the exported one, so a mis-export shows up as a divergence',
-           'PidStoreLoader / protobuf text parsing are not modelled: the real loader runs on every check and its '
-           'output (all 1368 descriptors) is compared with an independent Python reading of data/rdm/*.proto '
+           'PidStoreLoader is modelled from the protobuf messages on (coq/Loader.v; the exporter prints the messages '
+           'the real text parser produced, c14_loader_model_shipped equates model output and real loader output); '
+           'the protobuf text parser itself is trusted; additionally the real loader output (all 1368 descriptors) '
+           'is compared with an independent Python reading of data/rdm/*.proto '
            '(prop.py _compare_with_data_files, mirroring the uint8_t/uint16_t/int16_t truncation of sizes); '
            'GroupSizeCalculator is modelled (gcalc) and compared on every case with the payload length as token '
            'count (key gs, internal); PidStoreHelper, StringMessageBuilder and the message printers are outside '
@@ -360,6 +362,8 @@ SYNTHETIC = [
     # ill-formed (DescriptorConsistencyChecker rejects them; the decoder must still be safe)
     's0:4,s0:4', 's0:4,g0:-1[u8]', 'g0:-1[u8],g0:-1[u16]', 'g0:-1[s0:4]', 'g2:2[s0:4]', 'g0:-1[g0:-1[u8]]',
     'g0:-1[g0:2[u8]]', 'g3:1[u8]', 'u8,g3:1[u16],b', 'g1:2[u8,s1:2]',
+    # variable groups whose blocks carry no data (accepted by the loader; fixes/02: used to divide by zero)
+    'g0:-1[]', 'g1:-1[]', 'g0:5[]', 'u8,g0:-1[s0:0]', 'g0:-1[g0:0[u8]],u16', 'g0:-1[g2:2[]]',
     # values that do not fit uint8_t / uint16_t / int16_t (the C++ constructors truncate them)
     'g0:40000[u8]', 'g0:-2[u16]', 'g65537:-1[u8]', 's300:260', 'g0:32767[u8]', 'g0:65535[b,u8]',
 ]
@@ -667,18 +671,20 @@ def nontrivial(payload, md):
     return md.get('r') == 'msg' and md.get('ser', '-') != '-'
 
 
-LEVEL_TEXT = ('Coq theorems over an executable model of the PID message codec: for every well-formed descriptor '
-              'and every byte string (any length < 2^32) decoding never reads outside the payload, never divides '
-              'by zero and either rejects or yields a message whose re-encoding is exactly the specified normal '
-              'form of the input (c14_total, c14_roundtrip_partial); acceptance, layout and field/group counts '
-              'depend on the length only (c14_rejects_by_length, c14_counts); every descriptor the real loader '
-              'builds from data/rdm (table regenerated every run) is well-formed and consistent and the store has '
-              'no duplicate PID values/names (c14_shipped, c14_shipped_generic, c14_store_consistent). PARTIAL: a '
-              'boolean byte >= 2 re-encodes as 1 (c14_bool_refuted, known finding C14-bool-byte-normalised), so '
-              'the property\'s byte-exact statement (strings up to their first NUL) is proved under the guard that '
-              'boolean bytes are 0/1 (c14_roundtrip); the serializer never writes outside its buffer for any message < 2^30 bytes '
-              '(c14_serialize_in_bounds, about the code corrected by fixes/01); stability of a second decode is '
-              'checked by the correspondence run only, not proved.')
+LEVEL_TEXT = ('Coq theorems over an executable model of the PID message codec and of the loader: for every descriptor '
+              'whose sizes stay inside unsigned int (wf_desc; no other hypothesis since fixes/02) and every byte string '
+              'decoding never reads outside the payload and either rejects or yields a message whose re-encoding is '
+              'exactly the specified normal form (c14_total, c14_roundtrip_partial); acceptance, layout and counts depend '
+              'on the length only; serializer and deserializer results do not depend on earlier calls '
+              '(c14_serialize_stateless, c14_inflate_stateless) and the serializer stays inside its buffer '
+              '(c14_serialize_in_bounds); the loader model, run on the data files as the real protobuf parser reads '
+              'them, yields exactly the tables the real loader built (c14_loader_model_shipped) and whatever it accepts '
+              'has unique (manufacturer, PID) keys and consistent frame formats (c14_loader_model_rules, '
+              'c14_loader_rules, c14_store_lookup, c14_override_semantics); every shipped descriptor is well-formed '
+              '(c14_shipped). PARTIAL: a boolean byte >= 2 re-encodes as 1 (c14_bool_refuted, known finding), so the '
+              'byte-exact statement is proved under the guard that boolean bytes are 0/1 (c14_roundtrip). Not proved, '
+              'correspondence only: stability of a second decode, statelessness / thread independence of the C++ '
+              'objects, overrides.proto handling of the real loader, PidStoreHelper.')
 LEVEL_NOTE = ('Trusted: Coq kernel (vm_compute for the finite check over the exported descriptors), extraction '
               '(ExtrOcamlBasic), the exporter that prints the loaded store as Gallina, OCaml/C++ glue, generator '
               'coverage; model = code is validated by differential testing (ASan/UBSan build of the working '
